@@ -354,6 +354,19 @@ impl ProcfsHandle {
         let subpath = subpath.as_ref();
         let mut oflags = oflags.into();
 
+        // The final component is opened directly rather than through the
+        // resolver, so we have to refuse creation flags here ourselves.
+        // O_CREAT on a magic-link would act on whatever the link points to,
+        // and O_TMPFILE would create a new inode in that directory.
+        if oflags.intersects(OpenFlags::O_CREAT | OpenFlags::O_EXCL)
+            || oflags.contains(OpenFlags::O_TMPFILE)
+        {
+            Err(ErrorImpl::InvalidArgument {
+                name: "flags".into(),
+                description: "O_CREAT, O_EXCL and O_TMPFILE are not permitted".into(),
+            })?
+        }
+
         // Drop any trailing /-es.
         let (subpath, trailing_slash) = utils::path_strip_trailing_slash(subpath);
         if trailing_slash {
